@@ -494,10 +494,22 @@ func (b *broker) syncDelSubscription(sub *subscription) {
 	}
 }
 
+// syncKeepsHistory returns true if the subscription has an event history
+// store. Such a subscription is created from the realm configuration and must
+// outlive its subscribers, otherwise later publications are not retained.
+func (b *broker) syncKeepsHistory(sub *subscription) bool {
+	_, ok := b.eventHistoryStore[sub]
+	return ok
+}
+
 // syncUnsibsubscribe removes the subscriber from the specified subscription.
 func (b *broker) syncUnsubscribe(subscriber *wamp.Session, msg *wamp.Unsubscribe) {
 	subID := msg.Subscription
 	sub, ok := b.subscriptions[subID]
+	if ok {
+		// Only a session that is subscribed can unsubscribe.
+		_, ok = sub.subscribers[subscriber]
+	}
 	if !ok {
 		b.trySend(subscriber, &wamp.Error{
 			Type:    msg.MessageType(),
@@ -515,7 +527,7 @@ func (b *broker) syncUnsubscribe(subscriber *wamp.Session, msg *wamp.Unsubscribe
 	// If no more subscribers on this subscription, delete subscription and
 	// send on_delete meta event.
 	var delLastSub bool
-	if len(sub.subscribers) == 0 {
+	if len(sub.subscribers) == 0 && !b.syncKeepsHistory(sub) {
 		b.syncDelSubscription(sub)
 		delLastSub = true
 	}
@@ -568,7 +580,7 @@ func (b *broker) syncRemoveSession(subscriber *wamp.Session) {
 		delete(sub.subscribers, subscriber)
 
 		// If no more subscribers on this subscription.
-		if len(sub.subscribers) == 0 {
+		if len(sub.subscribers) == 0 && !b.syncKeepsHistory(sub) {
 			b.syncDelSubscription(sub)
 			// Fired when a subscription is deleted after the last session
 			// attached to it has been removed.
